@@ -409,6 +409,11 @@ def check_run(libname, wrap_c, wrap_f, decl_index, decl_cf, cfg, res):
             for nm in mine.get("f-iface", []):
                 if re.search(r"(?im)^\s*(?:[a-z_()0-9 ]*\s)?(subroutine|function)\s+%s\s*\(" % re.escape(nm), ftext):
                     return "declaration %r has wrap_fortran off but the bind(C) interface %s (declared inside it) is in the Fortran module" % (dtext, nm)
+            if mine.get("f-iface"):
+                # the same by the C name bound to (the interface's Fortran name depends on whether a wrapper exists)
+                for nm in mine.get("c-inside", []):
+                    if re.search(r'bind\(C, name="%s"\)' % re.escape(nm), ftext):
+                        return "declaration %r has wrap_fortran off but a bind(C) interface to %s (declared inside it) is in the Fortran module" % (dtext, nm)
         for lang in ("python", "lua", "fortran"):
             others = set()
             for j in range(nd):
